@@ -37,7 +37,7 @@ fn ncomponents(p: &str) -> usize {
 }
 
 fn check_one(p: &str, rep: &mut Report, idx: u64) {
-    if p.is_empty() || ncomponents(p) > 60 {
+    if p.is_empty() || ncomponents(p) > 400 {
         return;
     }
     rep.evaluations += 1;
@@ -113,7 +113,9 @@ pub fn run(ctx: &Ctx, rep: &mut Report) {
             }
         } else {
             let mut rng = Rng::new(crate::rng::mix64(ctx.seed ^ idx.wrapping_mul(0x9e3779b97f4a7c15)));
-            let ncomp = rng.range(1, 60);
+            // mostly within the 60 components the first sentence of the property is about; node
+            // identity (second sentence) is not bounded, so deep paths are exercised too
+            let ncomp = if rng.chance(1, 6) { rng.range(61, 200) } else { rng.range(1, 60) };
             let mut s = String::new();
             if rng.chance(1, 4) {
                 s.push(if rng.chance(1, 2) { '/' } else { '\\' });
@@ -129,9 +131,9 @@ pub fn run(ctx: &Ctx, rep: &mut Report) {
             check_one(&s, rep, idx);
             // node identity: a respelling (noise before the last component) canonicalises identically
             let base = canon_ref(&s);
-            if ncomponents(&base) <= 20 && !base.contains('\\') && base != "." {
+            if !base.contains('\\') && base != "." {
                 let v = crate::ap::respell(&base, &mut rng);
-                if ncomponents(&v) <= 60 {
+                if ncomponents(&v) <= 400 {
                     let vv = v.clone();
                     if let Ok(c) = guarded(move || n2::canon::to_owned_canon_path(vv)) {
                         rep.count("respell_pairs", 1);
